@@ -178,15 +178,20 @@ pub fn execute(case: &Case, seed: u64) -> Outcome {
 }
 
 pub fn judge(case: &Case, o: &Outcome) -> Vec<(String, String)> {
+    judge_p("C02:s2", case, o)
+}
+
+/// The same oracle under another signature prefix (C11 uses this seam for undecodable field sections).
+pub fn judge_p(pfx: &str, case: &Case, o: &Outcome) -> Vec<(String, String)> {
     let role = if case.server { "server" } else { "client" };
     let place = if case.place == Where::Request { "request" } else { "control" };
     let ctx = format!("{role} {place} stream{}, bytes {} {} [{}], {:?}", if case.place == Where::Request && !case.with_head { " (first frame)" } else { "" }, hex(&case.bytes), if case.fin { "+FIN" } else { "(open)" }, case.why, case.mode);
     let mut out = Vec::new();
     for p in &o.panics {
-        out.push((format!("C02:s2:{role}:{place}:panic@{}", explore::panics::short_loc(p)), format!("{ctx}: {p}")));
+        out.push((format!("{pfx}:{role}:{place}:panic@{}", explore::panics::short_loc(p)), format!("{ctx}: {p}")));
     }
     if o.horizon {
-        out.push((format!("C02:s2:{role}:{place}:livelock"), format!("{ctx}: still runnable after {HORIZON} polls")));
+        out.push((format!("{pfx}:{role}:{place}:livelock"), format!("{ctx}: still runnable after {HORIZON} polls")));
         return out;
     }
     if !o.panics.is_empty() {
@@ -195,14 +200,14 @@ pub fn judge(case: &Case, o: &Outcome) -> Vec<(String, String)> {
     let name = |c: u64| code_name(c);
     match o.close_codes.as_slice() {
         [] => out.push((
-            format!("C02:s2:{role}:{place}:{}{}:not-reported", case.why, if case.with_head { "" } else { ":first-frame" }),
+            format!("{pfx}:{role}:{place}:{}{}:not-reported", case.why, if case.with_head { "" } else { ":first-frame" }),
             format!("{ctx}: the connection was never closed (expected {}); driver {:?}, request {:?}", name(case.accept[0]), o.driver, o.msg.as_ref().map(|m| (m.head.clone(), m.body_end.clone(), m.trailers.clone(), m.stage.clone()))),
         )),
         [c] if case.accept.contains(c) => {}
-        [c] => out.push((format!("C02:s2:{role}:{place}:{}{}:code={}", case.why, if case.with_head { "" } else { ":first-frame" }, name(*c)), format!("{ctx}: closed with {} ({c:#x}), expected {}", name(*c), case.accept.iter().map(|c| name(*c)).collect::<Vec<_>>().join(" or ")))),
+        [c] => out.push((format!("{pfx}:{role}:{place}:{}{}:code={}", case.why, if case.with_head { "" } else { ":first-frame" }, name(*c)), format!("{ctx}: closed with {} ({c:#x}), expected {}", name(*c), case.accept.iter().map(|c| name(*c)).collect::<Vec<_>>().join(" or ")))),
         many => {
             if !many.iter().all(|c| *c == many[0]) || !case.accept.contains(&many[0]) {
-                out.push((format!("C02:s2:{role}:{place}:{}:close-codes-differ", case.why), format!("{ctx}: close() called with {many:x?}")));
+                out.push((format!("{pfx}:{role}:{place}:{}:close-codes-differ", case.why), format!("{ctx}: close() called with {many:x?}")));
             }
         }
     }
@@ -210,7 +215,7 @@ pub fn judge(case: &Case, o: &Outcome) -> Vec<(String, String)> {
     if let (Some(c), Some(d)) = (o.close_codes.first(), o.driver.iter().find(|d| *d != "req")) {
         let want = format!("Local({c:#x})");
         if *d != want {
-            out.push((format!("C02:s2:{role}:{place}:driver-reports-other-error"), format!("{ctx}: close({c:#x}) on the wire but the driver reported {d}")));
+            out.push((format!("{pfx}:{role}:{place}:driver-reports-other-error"), format!("{ctx}: close({c:#x}) on the wire but the driver reported {d}")));
         }
     }
     out
@@ -367,6 +372,10 @@ pub fn run_into(args: &Args, total: &mut Acc) {
 }
 
 pub fn replay(r: &Value) -> i32 {
+    replay_p("C02:s2", r)
+}
+
+pub fn replay_p(pfx: &str, r: &Value) -> i32 {
     let case = case_from_json(r);
     let seed = r["seed"].as_u64().unwrap_or(0);
     let choices: Vec<u32> = r["choices"].as_array().map(|a| a.iter().map(|x| x.as_u64().unwrap() as u32).collect()).unwrap_or_default();
@@ -379,7 +388,7 @@ pub fn replay(r: &Value) -> i32 {
     println!("case: {case:?}");
     println!("reference: close({})", case.accept.iter().map(|c| code_name(*c)).collect::<Vec<_>>().join(" or "));
     println!("h3       : close codes {:x?}, driver {:?}, request {:?}, pending {:?}", o.close_codes, o.driver, o.msg, o.pending);
-    let v = judge(&case, &o);
+    let v = judge_p(pfx, &case, &o);
     for (sig, msg) in &v {
         println!("observed: {sig}: {msg}");
     }
